@@ -15,6 +15,7 @@
 extern volatile int shim_on;
 extern volatile int shim_always; /* keep the shim active outside GUARDED sections too */
 extern int shim_fence;
+extern int shim_bypass;       /* 1 = hand every request to the real allocator untouched (C15: heap residue must reach the library) */
 extern long shim_fail_at;     /* 0 = never */
 extern long shim_calls;       /* allocations requested since shim_reset() */
 extern long shim_failed;      /* how many returned NULL by injection */
